@@ -45,4 +45,8 @@ theorem gen_portmapper_registers_bound_port : Gen.portmapperRegistersAfterListen
 /-- regenerated from the source on every run: a closing connection gives its slot back whatever the Debug option (Export cannot turn Debug on) -/
 theorem gen_uncount_unconditional : Gen.unregisterUncountsUnconditionally = true := by decide
 
+/-- the read timeout bounds the silence between two calls, not the age of the connection: the deadline is renewed
+    inside the request loop -/
+theorem gen_read_deadline_renewed : Gen.connLoopRenewsReadDeadline = true := by decide
+
 end Props.C28
